@@ -186,6 +186,8 @@ pub struct Sys {
     pub sweep: bool,
     /// params["ids"] = [packet id, subscription id] has been applied (hook H2), once
     pub ids_preset: bool,
+    /// the Context was dropped in the middle of a write: the packet can never be completed
+    pub torn_write: bool,
 }
 
 impl Sys {
@@ -209,6 +211,7 @@ impl Sys {
             read_chunk: None,
             sweep: false,
             ids_preset: false,
+            torn_write: false,
         }
     }
 
@@ -313,6 +316,7 @@ impl Sys {
             && !self.w.wire.borrow().write_err
             && !self.w.hard_blocked()
             && self.m.blocked.is_none()
+            && !self.torn_write
         {
             let n = self.w.partial_out();
             self.violation(
@@ -593,6 +597,9 @@ impl Sys {
                 self.w.drop_master();
             }
             Ev::DropCtx => {
+                if self.m.blocked.is_some() {
+                    self.torn_write = true;
+                }
                 self.m.drop_ctx();
                 self.w.drop_task(Tid::Ctx);
             }
